@@ -1,8 +1,9 @@
 /-
 Lemmas/FrontInclude.lean — helper lemmas for C19 (INCLUDE is textual inclusion):
 `parseLines` and the local recursion of `expand` distribute over `++` (with "first failure wins"
-sequencing `Outcome.app`), fuel monotonicity of `expand`, non-divergence, and the factorisation
-`assemble = front ; back`.
+sequencing `oapp`), fuel monotonicity of `expand`, monotonicity in the chain of files being included
+(`expand_ok_mono`, `expand_self_chain`), non-divergence, the factorisation `assemble = front ; back`,
+missing file / cycle give `diag`, and a chain of nested files that exhausts the fuel (`expandOne_deep`).
 -/
 import CoCoVerif.Model.Program
 
@@ -77,148 +78,301 @@ theorem parseLines_single_some {l : Str} {s : Stmt} (h : parseLine l = .ok (some
 /-! ### expand -/
 
 /-- what `go` does with one statement -/
-def expandOne (fs : Files) (fuel : Nat) (s : Stmt) : Outcome (List Stmt) :=
+def expandOne (fs : Files) (fuel : Nat) (inc : List Str) (s : Stmt) : Outcome (List Stmt) :=
   if s.row.isInclude && !s.operand.text.isEmpty then
-    match fs.get? s.operand.text with
-    | none => .internal
-    | some lines => (parseLines lines).bind (expand fs fuel)
+    if inc.contains s.operand.text then .diag
+    else
+      match fs.get? s.operand.text with
+      | none => .diag
+      | some lines => (parseLines lines).bind (expand fs fuel (inc ++ [s.operand.text]))
   else .ok [s]
 
-theorem expandOne_plain {fs : Files} {fuel : Nat} {s : Stmt}
-    (h : (s.row.isInclude && !s.operand.text.isEmpty) = false) : expandOne fs fuel s = .ok [s] := by
+theorem expandOne_plain {fs : Files} {fuel : Nat} {inc : List Str} {s : Stmt}
+    (h : (s.row.isInclude && !s.operand.text.isEmpty) = false) : expandOne fs fuel inc s = .ok [s] := by
   simp [expandOne, h]
 
-theorem expandOne_missing {fs : Files} {fuel : Nat} {s : Stmt}
+/-- an INCLUDE of a file that is being included: diagnostic -/
+theorem expandOne_cycle {fs : Files} {fuel : Nat} {inc : List Str} {s : Stmt}
+    (h : (s.row.isInclude && !s.operand.text.isEmpty) = true) (hc : inc.contains s.operand.text = true) :
+    expandOne fs fuel inc s = .diag := by
+  simp only [expandOne, h, hc, if_true]
+
+/-- an INCLUDE of a file the host does not have: diagnostic -/
+theorem expandOne_missing {fs : Files} {fuel : Nat} {inc : List Str} {s : Stmt}
     (h : (s.row.isInclude && !s.operand.text.isEmpty) = true) (hf : fs.get? s.operand.text = none) :
-    expandOne fs fuel s = .internal := by
-  simp [expandOne, h, hf]
+    expandOne fs fuel inc s = .diag := by
+  simp only [expandOne, h, hf, if_true]
+  split <;> rfl
 
-theorem expandOne_some {fs : Files} {fuel : Nat} {s : Stmt} {lines : List Str}
-    (h : (s.row.isInclude && !s.operand.text.isEmpty) = true) (hf : fs.get? s.operand.text = some lines) :
-    expandOne fs fuel s = (parseLines lines).bind (expand fs fuel) := by
-  simp [expandOne, h, hf]
+theorem expandOne_some {fs : Files} {fuel : Nat} {inc : List Str} {s : Stmt} {lines : List Str}
+    (h : (s.row.isInclude && !s.operand.text.isEmpty) = true) (hc : inc.contains s.operand.text = false)
+    (hf : fs.get? s.operand.text = some lines) :
+    expandOne fs fuel inc s = (parseLines lines).bind (expand fs fuel (inc ++ [s.operand.text])) := by
+  simp only [expandOne, h, hc, hf, if_true]
+  rfl
 
-theorem go_nil (fs : Files) (fuel : Nat) : expand.go fs fuel [] = .ok [] := expand.go.eq_1 fs fuel
+theorem go_nil (fs : Files) (fuel : Nat) (inc : List Str) : expand.go fs fuel inc [] = .ok [] :=
+  expand.go.eq_1 fs fuel inc
 
-theorem go_cons (fs : Files) (fuel : Nat) (s : Stmt) (rest : List Stmt) :
-    expand.go fs fuel (s :: rest) = oapp (expandOne fs fuel s) (expand.go fs fuel rest) := by
+theorem go_cons (fs : Files) (fuel : Nat) (inc : List Str) (s : Stmt) (rest : List Stmt) :
+    expand.go fs fuel inc (s :: rest) = oapp (expandOne fs fuel inc s) (expand.go fs fuel inc rest) := by
   rw [expand.go.eq_2]
   by_cases h : (s.row.isInclude && !s.operand.text.isEmpty) = true
   · rw [if_pos h]
-    cases hf : fs.get? s.operand.text with
-    | none => rw [expandOne_missing h hf]; rfl
-    | some lines =>
-      rw [expandOne_some h hf]
-      dsimp only
-      cases parseLines lines with
-      | ok inc =>
-        dsimp only [Outcome.bind]
-        cases expand fs fuel inc <;> cases expand.go fs fuel rest <;> rfl
-      | _ => rfl
+    cases hc : inc.contains s.operand.text with
+    | true => rw [expandOne_cycle h hc]; rfl
+    | false =>
+      rw [if_neg (by simp)]
+      cases hf : fs.get? s.operand.text with
+      | none => rw [expandOne_missing h hf]; rfl
+      | some lines =>
+        rw [expandOne_some h hc hf]
+        dsimp only
+        cases parseLines lines with
+        | ok p =>
+          dsimp only [Outcome.bind]
+          cases expand fs fuel (inc ++ [s.operand.text]) p <;> cases expand.go fs fuel inc rest <;> rfl
+        | _ => rfl
   · rw [if_neg h, expandOne_plain (by simpa using h)]
-    cases expand.go fs fuel rest <;> rfl
+    cases expand.go fs fuel inc rest <;> rfl
 
-theorem go_append (fs : Files) (fuel : Nat) (a b : List Stmt) :
-    expand.go fs fuel (a ++ b) = oapp (expand.go fs fuel a) (expand.go fs fuel b) := by
+theorem go_append (fs : Files) (fuel : Nat) (inc : List Str) (a b : List Stmt) :
+    expand.go fs fuel inc (a ++ b) = oapp (expand.go fs fuel inc a) (expand.go fs fuel inc b) := by
   induction a with
   | nil => simp [go_nil]
   | cons s rest ih => rw [List.cons_append, go_cons, go_cons, ih, oapp_assoc]
 
-theorem go_single (fs : Files) (fuel : Nat) (s : Stmt) : expand.go fs fuel [s] = expandOne fs fuel s := by
+theorem go_single (fs : Files) (fuel : Nat) (inc : List Str) (s : Stmt) :
+    expand.go fs fuel inc [s] = expandOne fs fuel inc s := by
   rw [go_cons, go_nil, oapp_nil_right]
 
-theorem expand_succ (fs : Files) (fuel : Nat) (ss : List Stmt) :
-    expand fs (fuel + 1) ss = expand.go fs fuel ss := expand.eq_2 fs ss fuel
+theorem expand_succ (fs : Files) (fuel : Nat) (inc : List Str) (ss : List Stmt) :
+    expand fs (fuel + 1) inc ss = expand.go fs fuel inc ss := expand.eq_2 fs inc ss fuel
 
-theorem expand_zero (fs : Files) (ss : List Stmt) : expand fs 0 ss = .internal := expand.eq_1 fs ss
+theorem expand_zero (fs : Files) (inc : List Str) (ss : List Stmt) : expand fs 0 inc ss = .internal :=
+  expand.eq_1 fs inc ss
 
 theorem oapp_ne_diverged {α} {x y : Outcome (List α)} (hx : x ≠ .diverged) (hy : y ≠ .diverged) :
     oapp x y ≠ .diverged := by
   cases x <;> cases y <;> simp_all [oapp]
 
+theorem oapp_eq_ok {α} {x y : Outcome (List α)} {r : List α} (h : oapp x y = .ok r) :
+    ∃ a b, x = .ok a ∧ y = .ok b ∧ r = a ++ b := by
+  cases x <;> cases y <;> simp_all [oapp]
+
+theorem oapp_eq_diag {α} {x y : Outcome (List α)} (h : oapp x y = .diag) :
+    x = .diag ∨ ∃ a, x = .ok a ∧ y = .diag := by
+  cases x <;> cases y <;> simp_all [oapp]
+
+/-- the three ways an INCLUDE statement is processed -/
+theorem expandOne_cases (fs : Files) (fuel : Nat) (inc : List Str) (s : Stmt) :
+    ((s.row.isInclude && !s.operand.text.isEmpty) = false ∧ expandOne fs fuel inc s = .ok [s]) ∨
+    ((s.row.isInclude && !s.operand.text.isEmpty) = true ∧
+      (inc.contains s.operand.text = true ∨ fs.get? s.operand.text = none ∨
+        ∃ lines, fs.get? s.operand.text = some lines ∧ parseLines lines = .diag) ∧
+      expandOne fs fuel inc s = .diag) ∨
+    ((s.row.isInclude && !s.operand.text.isEmpty) = true ∧ inc.contains s.operand.text = false ∧
+      ∃ lines p, fs.get? s.operand.text = some lines ∧ parseLines lines = .ok p ∧
+        expandOne fs fuel inc s = expand fs fuel (inc ++ [s.operand.text]) p) := by
+  by_cases h : (s.row.isInclude && !s.operand.text.isEmpty) = true
+  · cases hc : inc.contains s.operand.text with
+    | true => exact .inr (.inl ⟨h, .inl rfl, expandOne_cycle h hc⟩)
+    | false =>
+      cases hf : fs.get? s.operand.text with
+      | none => exact .inr (.inl ⟨h, .inr (.inl rfl), expandOne_missing h hf⟩)
+      | some lines =>
+        rcases parseLines_ok_or_diag lines with ⟨p, hp⟩ | hp
+        · exact .inr (.inr ⟨h, rfl, lines, p, rfl, hp, by rw [expandOne_some h hc hf, hp]; rfl⟩)
+        · exact .inr (.inl ⟨h, .inr (.inr ⟨lines, rfl, hp⟩), by rw [expandOne_some h hc hf, hp]; rfl⟩)
+  · exact .inl ⟨by simpa using h, expandOne_plain (by simpa using h)⟩
+
 /-- INCLUDE expansion never diverges (fuel exhaustion is `internal`) -/
-theorem expand_ne_diverged (fs : Files) : ∀ (n : Nat) (ss : List Stmt), expand fs n ss ≠ .diverged := by
+theorem expand_ne_diverged (fs : Files) : ∀ (n : Nat) (inc : List Str) (ss : List Stmt),
+    expand fs n inc ss ≠ .diverged := by
   intro n
   induction n with
-  | zero => intro ss; simp [expand_zero]
+  | zero => intro inc ss; simp [expand_zero]
   | succ n ih =>
-    intro ss
+    intro inc ss
     rw [expand_succ]
     induction ss with
     | nil => simp [go_nil]
     | cons s rest ihr =>
       rw [go_cons]
       refine oapp_ne_diverged ?_ ihr
-      by_cases h : (s.row.isInclude && !s.operand.text.isEmpty) = true
-      · cases hf : fs.get? s.operand.text with
-        | none => rw [expandOne_missing h hf]; simp
-        | some lines =>
-          rw [expandOne_some h hf]
-          rcases parseLines_ok_or_diag lines with ⟨r, hr⟩ | hr <;> rw [hr]
-          · exact ih r
-          · simp [Outcome.bind]
-      · rw [expandOne_plain (by simpa using h)]; simp
+      rcases expandOne_cases fs n inc s with ⟨_, h⟩ | ⟨_, _, h⟩ | ⟨_, _, _, p, _, _, h⟩ <;> rw [h]
+      · simp
+      · simp
+      · exact ih _ p
 
-theorem go_ne_diverged (fs : Files) (n : Nat) (ss : List Stmt) : expand.go fs n ss ≠ .diverged := by
-  rw [← expand_succ]; exact expand_ne_diverged fs _ ss
+theorem go_ne_diverged (fs : Files) (n : Nat) (inc : List Str) (ss : List Stmt) :
+    expand.go fs n inc ss ≠ .diverged := by
+  rw [← expand_succ]; exact expand_ne_diverged fs _ inc ss
 
-/-- fuel monotonicity: one more unit of fuel cannot change a result that was not fuel exhaustion /
-missing file -/
-theorem expand_mono (fs : Files) : ∀ (n : Nat) (ss : List Stmt),
-    expand fs n ss ≠ .internal → expand fs (n + 1) ss = expand fs n ss := by
+/-- fuel monotonicity: one more unit of fuel cannot change a result that was not fuel exhaustion -/
+theorem expand_mono (fs : Files) : ∀ (n : Nat) (inc : List Str) (ss : List Stmt),
+    expand fs n inc ss ≠ .internal → expand fs (n + 1) inc ss = expand fs n inc ss := by
   intro n
   induction n with
-  | zero => intro ss h; simp [expand_zero] at h
+  | zero => intro inc ss h; simp [expand_zero] at h
   | succ n ih =>
-    intro ss
+    intro inc ss
     rw [expand_succ, expand_succ]
     induction ss with
     | nil => simp [go_nil]
     | cons s rest ihr =>
       rw [go_cons, go_cons]
       intro h
-      have h1 : expandOne fs (n + 1) s = expandOne fs n s := by
-        have hx : expandOne fs n s ≠ .internal := by
+      have h1 : expandOne fs (n + 1) inc s = expandOne fs n inc s := by
+        have hx : expandOne fs n inc s ≠ .internal := by
           intro hc; rw [hc] at h; simp at h
-        by_cases hinc : (s.row.isInclude && !s.operand.text.isEmpty) = true
-        · cases hf : fs.get? s.operand.text with
-          | none => rw [expandOne_missing hinc hf, expandOne_missing hinc hf]
-          | some lines =>
-            rw [expandOne_some hinc hf] at hx ⊢
-            rw [expandOne_some hinc hf]
-            rcases parseLines_ok_or_diag lines with ⟨r, hr⟩ | hr <;> rw [hr] at hx ⊢
-            · exact ih r hx
-            · rfl
-        · rw [expandOne_plain (by simpa using hinc), expandOne_plain (by simpa using hinc)]
+        rcases expandOne_cases fs n inc s with ⟨hp, h0⟩ | ⟨hp, hd, h0⟩ | ⟨hp, hc, lines, p, hf, hpl, h0⟩
+        · rw [h0, expandOne_plain hp]
+        · rw [h0]
+          rcases hd with hd | hd | ⟨lines, hf, hpl⟩
+          · exact expandOne_cycle hp hd
+          · exact expandOne_missing hp hd
+          · cases hc : inc.contains s.operand.text with
+            | true => exact expandOne_cycle hp hc
+            | false => rw [expandOne_some hp hc hf, hpl]; rfl
+        · rw [h0] at hx ⊢
+          rw [expandOne_some hp hc hf, hpl]
+          exact ih _ p hx
       rw [h1]
-      cases hx : expandOne fs n s with
+      cases hx : expandOne fs n inc s with
       | ok e =>
         rw [hx] at h
-        have : expand.go fs n rest ≠ .internal := by
+        have : expand.go fs n inc rest ≠ .internal := by
           intro hc; rw [hc] at h; simp at h
         rw [ihr this]
       | _ => rfl
 
-theorem expand_mono_ok {fs : Files} {n : Nat} {ss r : List Stmt} (h : expand fs n ss = .ok r) :
-    expand fs (n + 1) ss = .ok r := by
-  rw [expand_mono fs n ss (by rw [h]; simp), h]
+theorem expand_mono_ok {fs : Files} {n : Nat} {inc : List Str} {ss r : List Stmt}
+    (h : expand fs n inc ss = .ok r) : expand fs (n + 1) inc ss = .ok r := by
+  rw [expand_mono fs n inc ss (by rw [h]; simp), h]
 
-theorem expand_mono_diag {fs : Files} {n : Nat} {ss : List Stmt} (h : expand fs n ss = .diag) :
-    expand fs (n + 1) ss = .diag := by
-  rw [expand_mono fs n ss (by rw [h]; simp), h]
+theorem expand_mono_diag {fs : Files} {n : Nat} {inc : List Str} {ss : List Stmt}
+    (h : expand fs n inc ss = .diag) : expand fs (n + 1) inc ss = .diag := by
+  rw [expand_mono fs n inc ss (by rw [h]; simp), h]
 
-theorem expand_mono_le {fs : Files} {n m : Nat} {ss : List Stmt} (hnm : n ≤ m)
-    (h : expand fs n ss ≠ .internal) : expand fs m ss = expand fs n ss := by
+theorem expand_mono_le {fs : Files} {n m : Nat} {inc : List Str} {ss : List Stmt} (hnm : n ≤ m)
+    (h : expand fs n inc ss ≠ .internal) : expand fs m inc ss = expand fs n inc ss := by
   induction hnm with
   | refl => rfl
-  | step _ ih => rw [expand_mono fs _ ss (by rw [ih]; exact h), ih]
+  | step _ ih => rw [expand_mono fs _ inc ss (by rw [ih]; exact h), ih]
+
+/-! ### the chain of files being included
+
+A longer chain can only turn results into `diag` (more INCLUDEs count as cycles); a shorter chain and
+more fuel preserve success.  Because the Python reports a cycle at the *second* occurrence of a file in
+the chain, a chain that does not yet contain the file being processed goes one level deeper before it
+reports: the verdict is the same (`diag`) unless the extra level runs out of fuel. -/
+
+/-- success is preserved by more fuel and a shorter chain -/
+theorem expand_ok_mono (fs : Files) : ∀ (n m : Nat) (I J : List Str) (ss r : List Stmt),
+    n ≤ m → (∀ x ∈ J, x ∈ I) → expand fs n I ss = .ok r → expand fs m J ss = .ok r := by
+  intro n
+  induction n with
+  | zero => intro m I J ss r _ _ h; rw [expand_zero] at h; cases h
+  | succ n ih =>
+    intro m I J ss r hnm hsub
+    obtain ⟨m, rfl⟩ : ∃ k, m = k + 1 := ⟨m - 1, by omega⟩
+    rw [expand_succ, expand_succ]
+    induction ss generalizing r with
+    | nil => simp [go_nil]
+    | cons s rest ihr =>
+      rw [go_cons, go_cons]
+      intro h
+      obtain ⟨a, b, ha, hb, rfl⟩ := oapp_eq_ok h
+      rw [ihr b hb]
+      suffices hs : expandOne fs m J s = .ok a by rw [hs]; rfl
+      rcases expandOne_cases fs n I s with ⟨hp, h0⟩ | ⟨hp, hd, h0⟩ | ⟨hp, hc, lines, p, hf, hpl, h0⟩
+      · rw [expandOne_plain hp, ← ha, h0]
+      · rw [h0] at ha; cases ha
+      · have hcJ : J.contains s.operand.text = false := by
+          cases hj : J.contains s.operand.text with
+          | false => rfl
+          | true =>
+            have := hsub _ (by simpa using hj)
+            simp_all
+        rw [expandOne_some hp hcJ hf, hpl]
+        rw [h0] at ha
+        refine ih m _ _ p a (by omega) ?_ ha
+        intro x hx
+        simp only [List.mem_append, List.mem_singleton] at hx ⊢
+        exact hx.imp_left (hsub x)
+
+/-- a run that succeeds under chain `J` can, under a chain `I ⊆ J ∪ {f}`, end in `diag` only if the
+successful run expanded an `INCLUDE f` below a chain containing `f`, with less fuel -/
+theorem expand_diag_of_ok (fs : Files) (f : Str) : ∀ (m : Nat) (J : List Str) (ss r : List Stmt),
+    expand fs m J ss = .ok r → ∀ (n : Nat) (I : List Str), (∀ x ∈ I, x ∈ J ∨ x = f) →
+    expand fs n I ss = .diag →
+    ∃ m' J' lf pf r', m' < m ∧ (∀ x ∈ J, x ∈ J') ∧ f ∈ J' ∧ fs.get? f = some lf ∧
+      parseLines lf = .ok pf ∧ expand fs m' J' pf = .ok r' := by
+  intro m
+  induction m with
+  | zero => intro J ss r h; rw [expand_zero] at h; cases h
+  | succ m ih =>
+    intro J ss r h n I hsub hd
+    rw [expand_succ] at h
+    obtain ⟨n, rfl⟩ : ∃ k, n = k + 1 := by
+      cases n with
+      | zero => rw [expand_zero] at hd; cases hd
+      | succ k => exact ⟨k, rfl⟩
+    rw [expand_succ] at hd
+    induction ss generalizing r with
+    | nil => rw [go_nil] at hd; cases hd
+    | cons s rest ihr =>
+      rw [go_cons] at h hd
+      obtain ⟨a, b, ha, hb, rfl⟩ := oapp_eq_ok h
+      rcases oapp_eq_diag hd with hd1 | ⟨_, _, hd2⟩
+      · rcases expandOne_cases fs m J s with ⟨hp, h0⟩ | ⟨hp, _, h0⟩ | ⟨hp, hcJ, lines, p, hf, hpl, h0⟩
+        · rw [expandOne_plain hp] at hd1; cases hd1
+        · rw [h0] at ha; cases ha
+        · rw [h0] at ha
+          cases hcI : I.contains s.operand.text with
+          | true =>
+            have hmem : s.operand.text ∈ I := by simpa using hcI
+            rcases hsub _ hmem with hJ | hJ
+            · simp_all
+            · refine ⟨m, J ++ [s.operand.text], lines, p, a, by omega, ?_, ?_, hJ ▸ hf, hpl, ha⟩
+              · intro x hx; simp [hx]
+              · simp [hJ]
+          | false =>
+            rw [expandOne_some hp hcI hf, hpl] at hd1
+            obtain ⟨m', J', lf, pf, r', h1, h2, h3, h4, h5, h6⟩ :=
+              ih _ p a ha n (I ++ [s.operand.text]) (by
+                intro x hx
+                simp only [List.mem_append, List.mem_singleton] at hx ⊢
+                rcases hx with hx | hx
+                · rcases hsub x hx with h | h
+                  · exact .inl (.inl h)
+                  · exact .inr h
+                · exact .inl (.inr hx)) hd1
+            exact ⟨m', J', lf, pf, r', by omega, fun x hx => h2 x (by simp [hx]), h3, h4, h5, h6⟩
+      · exact ihr b hb hd2
+
+/-- the lines of file `f`: if they expand successfully under some chain `J`, then under a chain
+`I ⊆ J ∪ {f}` they cannot end in `diag` (they end in the same success, or fuel runs out) -/
+theorem expand_self_chain (fs : Files) (f : Str) (lf : List Str) (pf : List Stmt)
+    (hf : fs.get? f = some lf) (hpf : parseLines lf = .ok pf) :
+    ∀ (m : Nat) (J : List Str) (r : List Stmt), expand fs m J pf = .ok r →
+    ∀ (n : Nat) (I : List Str), (∀ x ∈ I, x ∈ J ∨ x = f) → expand fs n I pf ≠ .diag := by
+  intro m
+  induction m using Nat.strongRecOn with
+  | _ m ih =>
+    intro J r h n I hsub hd
+    obtain ⟨m', J', lf', pf', r', h1, h2, _, h4, h5, h6⟩ := expand_diag_of_ok fs f m J pf r h n I hsub hd
+    rw [hf] at h4; cases h4
+    rw [hpf] at h5; cases h5
+    exact ih m' h1 J' r' h6 n I (fun x hx => (hsub x hx).imp_left (h2 x)) hd
 
 /-! ### assemble = front ; back -/
 
 /-- parse and expand -/
 def front (fs : Files) (lines : List Str) : Outcome (List Stmt) :=
   match parseLines lines with
-  | .ok parsed => expand fs 64 parsed
+  | .ok parsed => expand fs 64 [] parsed
   | o => o
 
 /-- everything after INCLUDE expansion: a function of the expanded list only -/
@@ -265,7 +419,7 @@ theorem assemble_eq (fs : Files) (lines : List Str) :
       | .diverged => .diverged := by
   unfold assemble front back
   cases parseLines lines with
-  | ok p => cases expand fs 64 p <;> rfl
+  | ok p => cases expand fs 64 [] p <;> rfl
   | _ => rfl
 
 theorem assemble_congr {fs fs' : Files} {a b : List Str} (h : front fs a = front fs' b) :
@@ -279,49 +433,97 @@ theorem front_internal {fs : Files} {a : List Str} (h : front fs a = .internal) 
 theorem front_ne_internal {fs : Files} {a : List Str} (h : assemble fs a ≠ .internal) :
     front fs a ≠ .internal := fun hc => h (front_internal hc)
 
+theorem front_diag {fs : Files} {a : List Str} (h : front fs a = .diag) : assemble fs a = .diag := by
+  rw [assemble_eq, h]
+
+theorem front_ok_of_assemble_ok {fs : Files} {a : List Str} {x : Assembly} (h : assemble fs a = .ok x) :
+    ∃ ss, front fs a = .ok ss := by
+  rw [assemble_eq] at h
+  cases hf : front fs a with
+  | ok ss => exact ⟨ss, rfl⟩
+  | _ => rw [hf] at h; cases h
+
 /-! ### the inclusion step at the level of `front` -/
 
 theorem front_ne_diverged (fs : Files) (a : List Str) : front fs a ≠ .diverged := by
   unfold front
   rcases parseLines_ok_or_diag a with ⟨r, hr⟩ | hr <;> rw [hr]
-  · exact expand_ne_diverged fs 64 r
+  · exact expand_ne_diverged fs 64 [] r
   · simp
 
 /-- `front` of a program whose lines all parse -/
 theorem front_of_parsed {fs : Files} {a : List Str} {r : List Stmt} (h : parseLines a = .ok r) :
-    front fs a = expand.go fs 63 r := by
-  unfold front; rw [h]; exact expand_succ fs 63 r
+    front fs a = expand.go fs 63 [] r := by
+  unfold front; rw [h]; exact expand_succ fs 63 [] r
 
-/-- replacing one INCLUDE line by the lines of the file: the parse-and-expand stage agrees unless the
-left side ends in `internal` -/
+/-- Replacing one INCLUDE line by the lines of the file, at the level of the parse-and-expand stage.
+Three cases: the two sides agree; or the INCLUDE side runs out of fuel (`internal`); or the INCLUDE
+side reports a diagnostic and the substituted side runs out of fuel.  The last case is there because of
+cycles: with the INCLUDE line the file `f` is in the chain while its lines are processed, so an
+`INCLUDE f` further down is reported at once; after substitution `f` is not in the chain, the inner
+`INCLUDE f` is expanded once more and the cycle is reported one level deeper (`expand_self_chain`
+shows it cannot succeed) — unless that extra level exhausts the fuel. -/
+theorem front_include_cases {fs : Files} {pre post ls : List Str} {l : Str} {s : Stmt}
+    (hl : parseLine l = .ok (some s))
+    (hinc : (s.row.isInclude && !s.operand.text.isEmpty) = true)
+    (hf : fs.get? s.operand.text = some ls) :
+    front fs (pre ++ [l] ++ post) = front fs (pre ++ ls ++ post) ∨
+    front fs (pre ++ [l] ++ post) = .internal ∨
+    (front fs (pre ++ [l] ++ post) = .diag ∧ front fs (pre ++ ls ++ post) = .internal) := by
+  unfold front
+  rw [parseLines_append, parseLines_append, parseLines_single_some hl]
+  rw [parseLines_append (pre ++ ls), parseLines_append pre ls]
+  rcases parseLines_ok_or_diag pre with ⟨rp, hp⟩ | hp <;> rw [hp]
+  · rcases parseLines_ok_or_diag post with ⟨rq, hq⟩ | hq <;> rw [hq]
+    · simp only [oapp_ok_ok]
+      rw [show (64 : Nat) = 63 + 1 from rfl, expand_succ, go_append, go_append, go_single,
+        expandOne_some hinc (by simp) hf]
+      have hA := go_ne_diverged fs 63 [] rp
+      rcases parseLines_ok_or_diag ls with ⟨inc, hi⟩ | hi <;> rw [hi]
+      · simp only [oapp_ok_ok, expand_succ, go_append, List.nil_append]
+        rw [← expand_succ fs 63 [] inc]
+        show oapp (oapp _ (expand fs 63 [s.operand.text] inc)) _ = _ ∨ oapp (oapp _ (expand fs 63 _ inc)) _ = _ ∨
+          (oapp (oapp _ (expand fs 63 _ inc)) _ = _ ∧ _)
+        cases hx : expand fs 63 [s.operand.text] inc with
+        | ok r =>
+          rw [expand_ok_mono fs 63 64 [s.operand.text] [] inc r (by omega) (by simp) hx]
+          exact .inl rfl
+        | diag =>
+          have hy : ∀ r, expand fs 64 [] inc ≠ .ok r := fun r hr =>
+            expand_self_chain fs _ ls inc hf hi 64 [] r hr 63 [s.operand.text] (by simp) hx
+          have hy' := expand_ne_diverged fs 64 [] inc
+          cases hgo : expand.go fs 63 [] rp <;> cases hY : expand fs 64 [] inc <;>
+            cases hB : expand.go fs 63 [] rq <;> simp_all
+        | internal => cases hgo : expand.go fs 63 [] rp <;> simp_all
+        | diverged => exact absurd hx (expand_ne_diverged _ _ _ _)
+      · cases hgo : expand.go fs 63 [] rp <;> simp_all [Outcome.bind]
+    · rcases parseLines_ok_or_diag ls with ⟨inc, hi⟩ | hi <;> rw [hi] <;> exact .inl rfl
+  · exact .inl rfl
+
+/-- the two sides agree as soon as neither runs out of fuel in the parse-and-expand stage -/
 theorem front_include {fs : Files} {pre post ls : List Str} {l : Str} {s : Stmt}
     (hl : parseLine l = .ok (some s))
     (hinc : (s.row.isInclude && !s.operand.text.isEmpty) = true)
     (hf : fs.get? s.operand.text = some ls)
-    (hne : front fs (pre ++ [l] ++ post) ≠ .internal) :
+    (hne : front fs (pre ++ [l] ++ post) ≠ .internal)
+    (hne' : front fs (pre ++ ls ++ post) ≠ .internal) :
     front fs (pre ++ [l] ++ post) = front fs (pre ++ ls ++ post) := by
-  unfold front at hne ⊢
-  rw [parseLines_append, parseLines_append, parseLines_single_some hl] at hne ⊢
-  rw [parseLines_append (pre ++ ls), parseLines_append pre ls]
-  rcases parseLines_ok_or_diag pre with ⟨rp, hp⟩ | hp <;> rw [hp] at hne ⊢
-  · rcases parseLines_ok_or_diag post with ⟨rq, hq⟩ | hq <;> rw [hq] at hne ⊢
-    · simp only [oapp_ok_ok] at hne ⊢
-      rw [show (64 : Nat) = 63 + 1 from rfl, expand_succ, go_append, go_append, go_single,
-        expandOne_some hinc hf] at hne ⊢
-      rcases parseLines_ok_or_diag ls with ⟨inc, hi⟩ | hi <;> rw [hi] at hne ⊢
-      · simp only [oapp_ok_ok, expand_succ, go_append]
-        rw [← expand_succ fs 63 inc]
-        show oapp (oapp _ (expand fs 63 inc)) _ = _
-        change oapp (oapp _ (expand fs 63 inc)) _ ≠ _ at hne
-        by_cases hx : expand fs 63 inc = .internal
-        · rw [hx] at hne ⊢
-          have hA := go_ne_diverged fs 63 rp
-          cases hgo : expand.go fs 63 rp <;> simp_all
-        · rw [expand_mono fs 63 inc hx]
-      · have hA := go_ne_diverged fs 63 rp
-        cases hgo : expand.go fs 63 rp <;> simp_all [Outcome.bind]
-    · rcases parseLines_ok_or_diag ls with ⟨inc, hi⟩ | hi <;> rw [hi] <;> rfl
-  · rfl
+  rcases front_include_cases (pre := pre) (post := post) hl hinc hf with h | h | ⟨_, h⟩
+  · exact h
+  · exact absurd h hne
+  · exact absurd h hne'
+
+/-- a successful expansion of the INCLUDE side is the expansion of the substituted side -/
+theorem front_include_ok {fs : Files} {pre post ls : List Str} {l : Str} {s : Stmt} {ss : List Stmt}
+    (hl : parseLine l = .ok (some s))
+    (hinc : (s.row.isInclude && !s.operand.text.isEmpty) = true)
+    (hf : fs.get? s.operand.text = some ls)
+    (hok : front fs (pre ++ [l] ++ post) = .ok ss) :
+    front fs (pre ++ ls ++ post) = .ok ss := by
+  rcases front_include_cases (pre := pre) (post := post) hl hinc hf with h | h | ⟨h, _⟩
+  · rw [← h, hok]
+  · rw [hok] at h; cases h
+  · rw [hok] at h; cases h
 
 /-! ### missing file and include cycle -/
 
@@ -330,32 +532,52 @@ theorem parseLines_around {pre post : List Str} {l : Str} {s : Stmt} {rp rq : Li
     parseLines (pre ++ [l] ++ post) = .ok (rp ++ [s] ++ rq) := by
   rw [parseLines_append, parseLines_append, parseLines_single_some hl, hp, hq]; rfl
 
-/-- an INCLUDE of a file the host does not have, reached after a prefix that expands fine: `internal` -/
+/-- an INCLUDE of a file the host does not have, reached after statements that expand fine: `diag`,
+whatever follows and whatever chain of files is being processed -/
+theorem expand_missing {fs : Files} {n : Nat} {inc : List Str} {pre post e : List Stmt} {s : Stmt}
+    (hinc : (s.row.isInclude && !s.operand.text.isEmpty) = true)
+    (hf : fs.get? s.operand.text = none)
+    (he : expand.go fs n inc pre = .ok e) :
+    expand fs (n + 1) inc (pre ++ [s] ++ post) = .diag := by
+  rw [expand_succ, go_append, go_append, go_single, expandOne_missing hinc hf, he]
+  rfl
+
+/-- an INCLUDE of a file that is in the chain of files being processed, reached after statements that
+expand fine: `diag` -/
+theorem expand_cycle {fs : Files} {n : Nat} {inc : List Str} {pre post e : List Stmt} {s : Stmt}
+    (hinc : (s.row.isInclude && !s.operand.text.isEmpty) = true)
+    (hc : s.operand.text ∈ inc)
+    (he : expand.go fs n inc pre = .ok e) :
+    expand fs (n + 1) inc (pre ++ [s] ++ post) = .diag := by
+  rw [expand_succ, go_append, go_append, go_single, expandOne_cycle hinc (by simpa using hc), he]
+  rfl
+
+/-- an INCLUDE of a file the host does not have, reached after a prefix that expands fine: `diag` -/
 theorem front_missing {fs : Files} {pre post : List Str} {l : Str} {s : Stmt} {rp rq e : List Stmt}
     (hl : parseLine l = .ok (some s))
     (hinc : (s.row.isInclude && !s.operand.text.isEmpty) = true)
     (hf : fs.get? s.operand.text = none)
     (hp : parseLines pre = .ok rp) (hq : parseLines post = .ok rq)
-    (he : expand fs 64 rp = .ok e) :
-    front fs (pre ++ [l] ++ post) = .internal := by
-  rw [front_of_parsed (parseLines_around hl hp hq), go_append, go_append, go_single,
-    expandOne_missing hinc hf, ← expand_succ, he]
-  rfl
+    (he : expand fs 64 [] rp = .ok e) :
+    front fs (pre ++ [l] ++ post) = .diag := by
+  unfold front
+  rw [parseLines_around hl hp hq]
+  exact expand_missing hinc hf (by rw [← expand_succ]; exact he)
 
 /-- statements that are not INCLUDEs are copied -/
-theorem go_plain (fs : Files) (n : Nat) : ∀ (ss : List Stmt), (∀ x ∈ ss, x.row.isInclude = false) →
-    expand.go fs n ss = .ok ss := by
+theorem go_plain (fs : Files) (n : Nat) (inc : List Str) : ∀ (ss : List Stmt),
+    (∀ x ∈ ss, x.row.isInclude = false) → expand.go fs n inc ss = .ok ss := by
   intro ss
   induction ss with
-  | nil => intro _; exact go_nil fs n
+  | nil => intro _; exact go_nil fs n inc
   | cons x rest ih =>
     intro h
     rw [go_cons, expandOne_plain (by simp [h x (by simp)]), ih (fun y hy => h y (by simp [hy]))]
     rfl
 
-theorem expand_plain (fs : Files) (n : Nat) (ss : List Stmt) (h : ∀ x ∈ ss, x.row.isInclude = false) :
-    expand fs (n + 1) ss = .ok ss := by
-  rw [expand_succ]; exact go_plain fs n ss h
+theorem expand_plain (fs : Files) (n : Nat) (inc : List Str) (ss : List Stmt)
+    (h : ∀ x ∈ ss, x.row.isInclude = false) : expand fs (n + 1) inc ss = .ok ss := by
+  rw [expand_succ]; exact go_plain fs n inc ss h
 
 /-- a program that is one INCLUDE of a file without further INCLUDEs expands to the file's statements -/
 theorem front_single_include_plain {fs : Files} {ls : List Str} {l : Str} {s : Stmt} {r : List Stmt}
@@ -364,27 +586,11 @@ theorem front_single_include_plain {fs : Files} {ls : List Str} {l : Str} {s : S
     (hf : fs.get? s.operand.text = some ls)
     (hr : parseLines ls = .ok r) (hpl : ∀ x ∈ r, x.row.isInclude = false) :
     front fs [l] = .ok r := by
-  rw [front_of_parsed (parseLines_single_some hl), go_single, expandOne_some hinc hf, hr]
-  exact expand_plain fs 62 r hpl
+  rw [front_of_parsed (parseLines_single_some hl), go_single, expandOne_some hinc (by simp) hf, hr]
+  exact expand_plain fs 62 _ r hpl
 
-/-- a file that includes itself exhausts any amount of fuel (Python: RecursionError) -/
-theorem expand_self_include {fs : Files} {pre post : List Str} {l : Str} {s : Stmt} {rp rq : List Stmt}
-    (hl : parseLine l = .ok (some s))
-    (hinc : (s.row.isInclude && !s.operand.text.isEmpty) = true)
-    (hf : fs.get? s.operand.text = some (pre ++ [l] ++ post))
-    (hp : parseLines pre = .ok rp) (hnp : ∀ x ∈ rp, x.row.isInclude = false)
-    (hq : parseLines post = .ok rq) :
-    ∀ n, expand fs n (rp ++ [s] ++ rq) = .internal := by
-  intro n
-  induction n with
-  | zero => exact expand_zero fs _
-  | succ n ih =>
-    rw [expand_succ, go_append, go_append, go_single, expandOne_some hinc hf,
-      parseLines_around hl hp hq, go_plain fs n rp hnp]
-    show oapp (oapp _ (expand fs n _)) _ = _
-    rw [ih]; rfl
-
-/-- ... hence any program that reaches such an INCLUDE ends in `internal` -/
+/-- any program that reaches an `INCLUDE f`, where `f` contains an `INCLUDE f` line after lines
+without INCLUDE, ends in `diag` -/
 theorem front_self_include {fs : Files} {pre post pre0 post0 : List Str} {l : Str} {s : Stmt}
     {rp rq rp0 rq0 e : List Stmt}
     (hl : parseLine l = .ok (some s))
@@ -393,11 +599,59 @@ theorem front_self_include {fs : Files} {pre post pre0 post0 : List Str} {l : St
     (hp : parseLines pre = .ok rp) (hnp : ∀ x ∈ rp, x.row.isInclude = false)
     (hq : parseLines post = .ok rq)
     (hp0 : parseLines pre0 = .ok rp0) (hq0 : parseLines post0 = .ok rq0)
-    (he : expand fs 64 rp0 = .ok e) :
-    front fs (pre0 ++ [l] ++ post0) = .internal := by
+    (he : expand fs 64 [] rp0 = .ok e) :
+    front fs (pre0 ++ [l] ++ post0) = .diag := by
   rw [front_of_parsed (parseLines_around hl hp0 hq0), go_append, go_append, go_single,
-    expandOne_some hinc hf, parseLines_around hl hp hq, ← expand_succ, he]
-  show oapp (oapp _ (expand fs 63 _)) _ = _
-  rw [expand_self_include hl hinc hf hp hnp hq]; rfl
+    expandOne_some hinc (by simp) hf, parseLines_around hl hp hq, ← expand_succ, he]
+  show oapp (oapp _ (expand fs 63 _ _)) _ = _
+  rw [expand_cycle (n := 62) hinc (by simp) (go_plain fs 62 _ rp hnp)]; rfl
+
+/-! ### a chain of nested files: the only way to `internal` in the expansion stage
+
+`name 0` is a file without INCLUDE, `name (i+1)` is a file whose only statement is `INCLUDE name i`.
+Expanding an `INCLUDE name k` needs `k + 1` units of fuel below the current level. -/
+
+theorem expandOne_deep (fs : Files) (name : Nat → Str) (K : Nat) (p0 : List Stmt)
+    (hbase : ∃ ls, fs.get? (name 0) = some ls ∧ parseLines ls = .ok p0)
+    (hp0 : ∀ x ∈ p0, x.row.isInclude = false)
+    (hlink : ∀ i < K, ∃ ls s, fs.get? (name (i + 1)) = some ls ∧ parseLines ls = .ok [s] ∧
+      (s.row.isInclude && !s.operand.text.isEmpty) = true ∧ s.operand.text = name i)
+    (hinj : ∀ i ≤ K, ∀ j ≤ K, name i = name j → i = j) :
+    ∀ k ≤ K, ∀ s : Stmt, (s.row.isInclude && !s.operand.text.isEmpty) = true → s.operand.text = name k →
+    ∀ (n : Nat) (I : List Str), (∀ j ≤ k, name j ∉ I) →
+      expandOne fs n I s = if n ≤ k then .internal else .ok p0 := by
+  intro k
+  induction k with
+  | zero =>
+    intro _ s hc ht n I hI
+    obtain ⟨ls, hf, hp⟩ := hbase
+    have hnc : I.contains s.operand.text = false := by
+      rw [ht]; simpa using hI 0 (Nat.le_refl 0)
+    rw [expandOne_some hc hnc (ht ▸ hf), hp]
+    show expand fs n _ p0 = _
+    cases n with
+    | zero => rw [expand_zero]; rfl
+    | succ n => rw [expand_plain fs n _ p0 hp0, if_neg (by omega)]
+  | succ k ih =>
+    intro hk s hc ht n I hI
+    obtain ⟨ls, s', hf, hp, hc', ht'⟩ := hlink k (by omega)
+    have hnc : I.contains s.operand.text = false := by
+      rw [ht]; simpa using hI (k + 1) (Nat.le_refl _)
+    rw [expandOne_some hc hnc (ht ▸ hf), hp]
+    show expand fs n _ [s'] = _
+    cases n with
+    | zero => rw [expand_zero, if_pos (by omega)]
+    | succ n =>
+      rw [expand_succ, go_single, ih (by omega) s' hc' ht' n _ (by
+        intro j hj
+        simp only [List.mem_append, List.mem_singleton, not_or]
+        refine ⟨hI j (by omega), ?_⟩
+        rw [ht]
+        intro he
+        have := hinj j (by omega) (k + 1) hk he
+        omega)]
+      by_cases h : n ≤ k
+      · rw [if_pos h, if_pos (by omega)]
+      · rw [if_neg h, if_neg (by omega)]
 
 end CoCo.Asm
